@@ -301,6 +301,49 @@ def gc_children(ctx, r):
         rec = tag == "String" or any(x["k"] == "MethodCall" and x["m"] == "deep_copy" for x in q.walk(a["body"]))
         r.ob(allocs and rec, f"vm.rs:deep_copy:{tag}:not-a-deep-copy", VM, a["l"],
              f"deep_copy arm {tag}: must allocate a new {alloc.split('::')[0]} in the destination thread{'' if tag == 'String' else ' from recursively copied payload values'}", sample=f"deep_copy {tag}: new object, payload copied recursively")
+    # every object allocated anywhere in deep_copy (fast paths and early returns included) is built from copies only
+    def copy_derived(e, body):
+        while e["k"] in ("Ref", "Paren") or (e["k"] == "MethodCall" and e["m"] in ("into", "clone") and not e["args"]):
+            e = e["e"] if e["k"] in ("Ref", "Paren") else e["recv"]
+        if e["k"] == "MethodCall" and e["m"] == "deep_copy":
+            return True
+        if e["k"] == "MethodCall" and e["m"] == "collect":
+            # iterator chain ending in map(|x| x.deep_copy(..))
+            c = e["recv"]
+            return c["k"] == "MethodCall" and c["m"] == "map" and c["args"] and c["args"][0]["k"] == "Closure" and copy_derived(c["args"][0]["body"], body)
+        if e["k"] == "Block" and e["stmts"]:
+            last = e["stmts"][-1]
+            return last["k"] == "ExprStmt" and copy_derived(last["e"], body)
+        if e["k"] == "Path" and "::" not in e["p"]:
+            v = e["p"]
+            inits = [x for x in q.walk(body) if x["k"] == "Local" and v in q.pat_bindings(x["pat"])]
+            if len(inits) != 1 or inits[0].get("init") is None:
+                return False
+            init = inits[0]["init"]
+            empty = q.show(init).replace(" ", "") in ("vec![]", "vec!()", "Vec::new()") or q.show(init).replace(" ", "").startswith("Vec::with_capacity(")
+            if empty:
+                feeds = [x for x in q.walk(body) if x["k"] == "MethodCall" and x["recv"]["k"] == "Path" and x["recv"]["p"] == v and x["m"] in ("push", "extend", "insert", "append", "extend_from_slice", "resize", "push_back")]
+                return bool(feeds) and all(x["m"] == "push" and copy_derived(x["args"][0], body) for x in feeds)
+            return copy_derived(init, body)
+        return False
+
+    n_alloc = 0
+    for x in q.walk(dc["body"]):
+        if x["k"] == "Call" and x["f"]["k"] == "Path" and x["f"]["p"].endswith(("Object::new", "Object::new_with_data")):
+            ty, fnn = x["f"]["p"].split("::")[-2:]
+            ctor = q.find_fn(items, fnn, impl_ty=ty)
+            if ctor is None:
+                r.missing(f"vm.rs:{ty}::{fnn}", VM)
+                continue
+            ps = [p for p in ctor["params"] if not p.get("self")]
+            for p, arg in zip(ps, x["args"]):
+                if "Value" not in p.get("ty", ""):
+                    continue
+                n_alloc += 1
+                r.ob(copy_derived(arg, dc["body"]), f"vm.rs:deep_copy:{ty}:payload-not-copied", VM, x["l"],
+                     f"deep_copy allocates a {ty} whose payload `{q.show(arg)[:80]}` is not built from deep copies of the source's payload: the new object would point into the source thread's heap (shared, separately freed)",
+                     sample=f"deep_copy: {ty} payload `{q.show(arg)[:40]}` built from copies only")
+    r.count("deep_copy: Value-holding payload arguments", n_alloc, 3, VM)
     a = darms.get("Channel")
     if a is not None:
         r.ob(any(x["k"] == "MethodCall" and x["m"] == "copy" for x in q.walk(a["body"])), "vm.rs:deep_copy:Channel:not-shared", VM, a["l"], "deep_copy arm Channel must share the queue (ChannelObject::copy)")
@@ -571,3 +614,99 @@ def ch_own(ctx, r):
                      "a value read after the writer finished or collected is a dangling pointer, and the reader's collector marks objects of a foreign heap",
                      sample=f"{st['name']}.{fl['name']}: owned message representation")
     r.count("containers shared between threads", n, 1, VM)
+
+
+GROWERS = {"push", "insert", "extend", "extend_from_slice", "append", "reserve", "reserve_exact", "resize", "resize_with", "push_str", "shrink_to_fit", "shrink_to", "push_back", "push_front"}
+
+
+def _enclosing_stmt_list(root, target):
+    """Innermost block whose statements (directly) contain target: (stmts, index of the statement holding target)."""
+    best = None
+    for b in q.walk(root):
+        if b["k"] == "Block":
+            for i, s in enumerate(b["stmts"]):
+                if any(y is target for y in q.walk(s)):
+                    best = (b["stmts"], i)
+    return best
+
+
+@rule("HEAP-ACCT", ["C07"], "heap_size is a ledger of nbytes(): wherever a live object's nbytes() can change, heap_size moves by exactly that change, measured with the quantity nbytes() itself uses")
+def heap_acct(ctx, r):
+    items = ctx.file_items(VM)
+    if items is None:
+        r.missing("vm.rs")
+        return
+    # (object type, field, measure, per-unit factor) from the nbytes() of each heap object type
+    measures = []
+    for impl in q.find_impls(items):
+        ty = impl["self_ty"]
+        if not ty.endswith("Object") or impl.get("trait"):
+            continue
+        for f in impl["items"]:
+            if f["k"] == "Fn" and f["name"] == "nbytes" and f.get("body") is not None:
+                for x in q.walk(f["body"]):
+                    if x["k"] == "MethodCall" and x["recv"]["k"] == "Field" and q.show(x["recv"]["e"]) == "self" and not x["args"]:
+                        factor = None
+                        for b in q.walk(f["body"]):
+                            if b["k"] == "Binary" and b["op"] == "*" and (b["a"] is x or b["b"] is x):
+                                factor = q.show(b["b"] if b["a"] is x else b["a"])
+                        measures.append((ty, x["recv"]["f"], x["m"], factor))
+    r.count("object kinds whose nbytes() depends on a growable buffer", len(measures), 2, VM)
+    n = 0
+    for ty, field, measure, factor in measures:
+        for impl in q.find_impls(items):
+            if impl["self_ty"] == ty:
+                continue  # the constructor registers nbytes() as a whole (GC-ALLOC)
+            for f in impl["items"]:
+                if f["k"] != "Fn" or f.get("body") is None:
+                    continue
+                for x in q.walk(f["body"]):
+                    if not (x["k"] == "MethodCall" and x["m"] in GROWERS and x["recv"]["k"] == "Field" and x["recv"]["f"] == field):
+                        continue
+                    base = q.show(x["recv"]["e"])
+                    # is the base an object of type ty? (bound from get_<kind>_mut / a cast to ty)
+                    origin = [l for l in q.walk(f["body"]) if l["k"] == "Local" and base in q.pat_bindings(l["pat"]) and l.get("init") is not None]
+                    kindname = ty.replace("Object", "").lower()
+                    if not origin or not any((y["k"] == "MethodCall" and kindname in y["m"].lower()) or (y["k"] == "Cast" and ty in y.get("ty", "")) for y in q.walk(origin[-1]["init"])):
+                        continue
+                    n += 1
+                    armv = ""
+                    for a in q.walk(f["body"]):
+                        if a["k"] == "Arm" and any(y is x for y in q.walk(a["body"])):
+                            hs = [q.last_seg(h) for h in q.pat_heads(a["pat"]) if "::" in h]
+                            if hs:
+                                armv = ":" + "|".join(hs)
+                    where = f"vm.rs:{f['name']}{armv}:{base}.{field}.{x['m']}"
+                    got = _enclosing_stmt_list(f["body"], x)
+                    if got is None:
+                        r.missing(where, VM)
+                        continue
+                    stmts, i = got
+                    want = f"{base}.{field}.{measure}()"
+                    before = [s for s in stmts[:i] if s["k"] == "Local" and s.get("init") is not None and q.show(s["init"]).replace(" ", "") == want]
+                    after = [s for s in stmts[i + 1:] if s["k"] == "Local" and s.get("init") is not None and q.show(s["init"]).replace(" ", "") == want]
+                    bvars = {b for s in before for b in q.pat_bindings(s["pat"])}
+                    avars = {b for s in after for b in q.pat_bindings(s["pat"])}
+                    adj = []
+                    for s in stmts[i + 1:]:
+                        for y in q.walk(s):
+                            if y["k"] == "Binary" and y["op"] == "+=" and q.show(y["a"]).endswith("heap_size"):
+                                adj.append(y)
+                    ok = False
+                    detail = f"found before={sorted(bvars)} after={sorted(avars)} adjustments={[q.show(y['b']) for y in adj]}"
+                    for y in adj:
+                        for d in q.walk(y["b"]):
+                            if d["k"] == "Binary" and d["op"] == "-" and d["a"]["k"] == "Path" and d["b"]["k"] == "Path" and d["a"]["p"] in avars and d["b"]["p"] in bvars:
+                                # (after - before) * factor, nothing else
+                                top = y["b"]
+                                while top["k"] == "Paren":
+                                    top = top["e"]
+                                if factor is None:
+                                    ok = True
+                                elif top["k"] == "Binary" and top["op"] == "*":
+                                    sides = [q.show(top["a"]).strip("()"), q.show(top["b"]).strip("()")]
+                                    ok = factor in (q.show(top["a"]), q.show(top["b"])) and f"{d['a']['p']} - {d['b']['p']}" in sides
+                    r.ob(ok, where + ":growth-not-accounted", VM, x["l"],
+                         f"{f['name']}: `{base}.{field}.{x['m']}(..)` can change {ty}::nbytes() (= .. + {field}.{measure}() * {factor}); heap_size must move by (`{want}` after - `{want}` before) * {factor}, or the ledger drifts from what dealloc subtracts and collection pacing degrades ({detail})",
+                         sample=f"{f['name']}: {base}.{field}.{x['m']} accounted by {measure}() delta")
+    r.count("buffer-growing operations on live heap objects", n, 2, VM)
